@@ -25,7 +25,7 @@ def boolP : P (Option Bool) := do
 def ob (x : Option Bool) : String := match x with | some b => toString b | none => "panic"
 
 /-- `C02.pred <A> <B> => intersects(A,B) intersects(B,A) contains(A,B) within(A,B)` -/
-def handlePred (inp out : List String) : String :=
+def handlePredG (concrete : Bool) (inp out : List String) : String :=
   let pin : P (Geom × Geom) := do let a ← geometry; let b ← geometry; pure (a, b)
   let pout : P (Option Bool × Option Bool × Option Bool × Option Bool) := do
     let a ← boolP; let b ← boolP; let c ← boolP; let d ← boolP; pure (a, b, c, d)
@@ -40,7 +40,10 @@ def handlePred (inp out : List String) : String :=
     let mIxs := intersectsM b a
     let mCt := containsM a b
     let mWi := withinM a b
-    let same := ix == some mIx && ixs == some mIxs && ct == some mCt && wi == some mWi
+    -- the model mirrors the Geometry-enum dispatch; the concrete-type impls (`C02.cpred`) resolve some
+    -- pairs with the operands in the other order, so they are compared with the specification only
+    let same := if concrete then (ix == some sIx && ixs == some sIx && ct == some sCt && wi == some sWi)
+      else ix == some mIx && ixs == some mIxs && ct == some mCt && wi == some mWi
     let prop :=
       if ix.isNone || ixs.isNone || ct.isNone || wi.isNone then "FAIL:panic"
       else if ix != some sIx then "FAIL:intersects-disagrees-with-de9im"
@@ -48,7 +51,7 @@ def handlePred (inp out : List String) : String :=
       else if ct != some sCt then "FAIL:contains-disagrees-with-de9im"
       else if wi != some sWi then "FAIL:within-disagrees-with-de9im"
       else "PASS"
-    let tags := "A=" ++ tagOf a ++ " B=" ++ tagOf b ++ " ix=" ++ toString sIx ++ " ct=" ++ toString sCt ++ " wi=" ++ toString sWi ++
+    let tags := (if concrete then "concrete " else "enum ") ++ "A=" ++ tagOf a ++ " B=" ++ tagOf b ++ " ix=" ++ toString sIx ++ " ct=" ++ toString sCt ++ " wi=" ++ toString sWi ++
       (if disjointBB a b then " triv" else "")
     reply same prop tags
       (toString mIx ++ " " ++ toString mIxs ++ " " ++ toString mCt ++ " " ++ toString mWi ++ " spec " ++
@@ -82,7 +85,8 @@ def handlePos (inp out : List String) : String :=
 
 def handle (op : String) (inp out : List String) : Option String :=
   match op with
-  | "C02.pred" => some (handlePred inp out)
+  | "C02.pred" => some (handlePredG false inp out)
+  | "C02.cpred" => some (handlePredG true inp out)
   | "C02.pos" => some (handlePos inp out)
   | _ => none
 
